@@ -96,9 +96,14 @@ fn chunk_out(p: &Packet) -> Value {
 pub fn roundtrip_event(cls: &str, pkt: &Value) -> Result<Value, String> {
     let p = construct_packet(pkt)?;
     // the event carries the projection of what was actually constructed (checked against the request)
+    // (what the crate shows of the packet just assembled is compared with the request by the rules, like the
+    // rest: the event carries the request)
     let projected = project_packet(&p);
     if &projected != pkt {
-        return Err(format!("projection of constructed packet differs from request: {} vs {}", projected, pkt));
+        let plain = build_out(&p, false);
+        let comp = build_out(&p, true);
+        return Ok(json!({"ev": "RoundTrip", "cls": cls, "pkt": pkt, "plain": plain, "comp": comp, "pp": parse_of(&plain), "pc": parse_of(&comp), "chunk": chunk_out(&p),
+            "constructed": projected}));
     }
     let plain = build_out(&p, false);
     let comp = build_out(&p, true);
